@@ -52,6 +52,12 @@ CHECKS = {
    note="Trusted: exactlp certificates. ROOM exact up to a minimal count of 4; inputs where 1e-15 noise of the float reference decides the exact answer, or where a big-M coefficient (bound - w) is below 1e-7, are borderline-skipped (GLPK's unpresolved simplex is unreliable there).",
    technique="runtime oracle monitor (exact LP / exhaustive MILP enumeration)",
    ref="DESIGN.md §4 C09"),
+ "C17": dict(
+   level="exploration",
+   text="Oracle monitor: every loopless_solution result is judged against its start vector (internal FBA vertex captured by a tap, pFBA, or a harness-built optimal vector with extra loop flux): feasibility, same objective, same boundary fluxes, no reversal, no growth in magnitude, and irreducibility by an exact LP (largest conformal internal cycle still removable under those conditions). add_loopless + optimize is compared with the exact optimum over all loop-free distributions (union over thermodynamically feasible sign patterns) and the reported solution is checked for conformal internal cycles by a support LP.",
+   note="Trusted: exactlp, exact rational null space. add_loopless part: <= 6 cycle reactions, finite bounds, zero threshold max_bound x tolerance x 10.",
+   technique="runtime oracle monitor (exact cycle-removal LP, sign-pattern enumeration)",
+   ref="DESIGN.md §4 C17"),
  "C15": dict(
    level="fault_enumeration",
    text="Reference-model monitor in lock-step with the real DictList: bounded-exhaustive operation sequences (every index in [-n-2,n+1], every slice, every failing argument position) plus seeded random long sequences; coherence, list-semantics equality and unchanged-on-raise judged after every step. Exhaustive within the stated bounds, sampled beyond.",
